@@ -70,7 +70,13 @@ def run(ctx):
             desc = "the word parameter"
         elif k_e.k == "call" and "Index" in k_e.a[0] and "str" in k_e.a[0]:
             base = peel_conv(k_e.a[1][0])
-            if base.k == "arg" and _param_is_word_slice(prog, fk, base.a[0], acc):
+            own_fk = fk
+            if prog.fns[fk].get("kind") == "Closure":
+                # a look-up written inside a closure (`.and_then(|..| cache.get(&middle[..n]))`): the captured word is the creator's parameter
+                from engine.analyses import subst_upvars
+                base = peel_conv(subst_upvars(prog, fk, base))
+                own_fk = prog.owner_fn(fk)
+            if base.k == "arg" and _param_is_word_slice(prog, own_fk, base.a[0], acc):
                 good = True
                 desc = "a sub-slice of the word"
             elif base.k == "call" and "Index" in base.a[0]:
